@@ -143,7 +143,10 @@ Lemma build_table_setup ws dec0 M0 bits0 ranks0 idxs0 : Forall (fun w => 0 <= w)
   (forall c, 0 <= nth_z ranks0 c) /\ region M0 ranks0 (Z.to_nat M0) = 2 ^ M0 /\
   exists idxs, Z.of_nat (length idxs) = M0 + 1 /\ (forall k, (k <= Z.to_nat M0)%nat -> nth_z idxs (M0 - Z.of_nat k) = region M0 ranks0 k) /\
     (forall b, 0 <= b -> nth_z ranks0 b = cnt b bits0) /\
-    assign_codes bits0 0 M0 idxs (hentries0 (Z.to_nat (2 ^ M0))) = ROk (idxs0, dec0).
+    assign_codes bits0 0 M0 idxs (hentries0 (Z.to_nat (2 ^ M0))) = ROk (idxs0, dec0) /\
+    (* the code lengths come from the weights, the last one from the weight that completes the sum *)
+    exists lw, 1 <= lw <= M0 /\ bits0 = map (fun w => if 0 <? w then M0 + 1 - w else 0) ws ++ [M0 + 1 - lw] /\
+      fold_right (fun w a => (if 0 <? w then 2 ^ (w - 1) else 0) + a) 0 (ws ++ [lw]) = 2 ^ M0.
 Proof.
   intros Hnn Hres. revert Hres.
   unfold build_table_from_weights.
@@ -214,7 +217,13 @@ Proof.
   destruct (assign_codes bits 0 M idxs (hentries0 (Z.to_nat (2 ^ M)))) as [[ci di]|e|e] eqn:Ea; cbn [rbind]; try discriminate.
   intros H. injection H as <- <- <- <- <-.
   split; [lia|]. split; [unfold bits; rewrite app_length, map_length; cbn [length]; lia|]. split; [exact Hbits|]. split; [exact Hrank0|]. split; [exact Hreg|].
-  exists idxs. split; [exact Li|]. split; [intros k Hk; apply Gi; lia|]. split; [exact Gr'|exact Ea].
+  exists idxs. split; [exact Li|]. split; [intros k Hk; apply Gi; lia|]. split; [exact Gr'|]. split; [exact Ea|].
+  exists lw. split; [exact Hlw|]. split; [reflexivity|].
+  assert (Fapp : forall a b, fold_right (fun w a => (if 0 <? w then 2 ^ (w - 1) else 0) + a) 0 (a ++ b) =
+                 fold_right (fun w a => (if 0 <? w then 2 ^ (w - 1) else 0) + a) 0 a + fold_right (fun w a => (if 0 <? w then 2 ^ (w - 1) else 0) + a) 0 b).
+  { induction a as [|y a IHa]; intros b; cbn [app fold_right]; [lia|]. rewrite IHa. lia. }
+  rewrite Fapp, <- Esum. cbn [fold_right]. destruct (Z.ltb_spec 0 lw); [|lia].
+  assert (E1 : 2 ^ (lw - 1) = lo) by (unfold lw, highest_bit_set; replace (Z.log2 lo + 1 - 1) with (Z.log2 lo) by lia; exact Elo). rewrite E1. unfold lo. lia.
 Qed.
 
 Lemma hentries0_len n : length (hentries0 n) = n.
@@ -237,7 +246,7 @@ Theorem built_table_blocks ws dec M bits ranks idxs : Forall (fun w => 0 <= w) w
        base = region M ranks (Z.to_nat (M - nth j bits 0)) + cnt (nth j bits 0) (firstn j bits) * 2 ^ (M - nth j bits 0)).
 Proof.
   intros Hnn Hlen Hb.
-  destruct (build_table_setup ws dec M bits ranks idxs Hnn Hb) as (HM & Lb & Hbits & Hr0 & Hreg & idxs0 & Li & Gi & Gr & Ea).
+  destruct (build_table_setup ws dec M bits ranks idxs Hnn Hb) as (HM & Lb & Hbits & Hr0 & Hreg & idxs0 & Li & Gi & Gr & Ea & _).
   assert (HM1 : 1 <= M) by lia.
   assert (Ldec : Z.of_nat (length (hentries0 (Z.to_nat (2 ^ M)))) = 2 ^ M).
   { rewrite hentries0_len. pose proof (Z.pow_pos_nonneg 2 M ltac:(lia) ltac:(lia)). lia. }
